@@ -99,6 +99,8 @@ def handle_violations(adapter, seed, violations, findings, tier="quick"):
         note = None
         t0 = time.time()
         try:
+            if isinstance(case, dict) and "rerun" in case:
+                raise RuntimeError("run-range case: nothing to minimise in-process")
             small = adapter.minimise(case, sig)
             # the minimised case must still fail the same way, in this process ...
             try:
